@@ -61,7 +61,11 @@ func checkC17(c CaseC17) error {
 	if err != nil {
 		return vt.Failf("ParseRealtime rejected a well-formed message: %v", err)
 	}
-	got := rgen.Normalize(r)
+	return compareC17(rgen.Normalize(r), c)
+}
+
+// compareC17 checks a parsed result against the reference model of the NYCT alerts extension.
+func compareC17(got rgen.NRealtime, c CaseC17) error {
 	want, wantTrips := rgen.ExpectNyctAlerts(c.Msg, c.Opts, rgen.LocOrUTC(c.Zone))
 	byID := map[string]rgen.NAlert{}
 	for _, a := range got.Alerts {
@@ -258,7 +262,7 @@ func genC17(t *rapid.T) (CaseC17, map[string]bool) {
 		for si := range a.Informed {
 			if rapid.IntRange(0, 2).Draw(t, "mercurySel?") != 0 {
 				pr := rapid.OneOf(rapid.IntRange(1, 40), rapid.SampledFrom([]int{0, 41, 99, -1, 2, 3, 4})).Draw(t, "priority")
-				so := fmt.Sprintf("%s:%d", rapid.SampledFrom([]string{"GTFS:MTASBWY", "x", ""}).Draw(t, "sortPrefix"), pr)
+				so := fmt.Sprintf("%s:%d", rapid.SampledFrom([]string{"GTFS:MTASBWY", "x", "", "MTA:NYCT:G", "a:b:c:d", "MTASBWY:7:", ":"}).Draw(t, "sortPrefix"), pr)
 				if rapid.IntRange(0, 9).Draw(t, "badSortOrder") == 0 {
 					so = rapid.SampledFrom([]string{"nocolon", "a:b", "a:", ""}).Draw(t, "badSort")
 				}
